@@ -173,6 +173,20 @@ def _diff(a, b, names: dict, rnames: dict, out: list, in_msg=False) -> bool:
         nm = f.attr if isinstance(f, ast.Attribute) else (f.id if isinstance(f, ast.Name) else "")
         if nm in _IGNORED_STR_CALLS:
             msg = True
+    if isinstance(a, ast.BinOp) and isinstance(b, ast.BinOp) and type(a.op) is type(b.op) and not getattr(a, "_swapped", False):
+        # try as written; if the skeletons differ, try with the operands exchanged: the same for + and *,
+        # a leaf difference ("operands swapped") for - and /
+        n1, r1, o1 = dict(names), dict(rnames), []
+        if _diff(a.left, b.left, n1, r1, o1, in_msg) and _diff(a.right, b.right, n1, r1, o1, in_msg):
+            names.update(n1); rnames.update(r1); out.extend(o1)
+            return True
+        n2, r2, o2 = dict(names), dict(rnames), []
+        if _diff(a.left, b.right, n2, r2, o2, in_msg) and _diff(a.right, b.left, n2, r2, o2, in_msg):
+            names.update(n2); rnames.update(r2); out.extend(o2)
+            if not isinstance(a.op, (ast.Add, ast.Mult)):
+                out.append(("operands", "swapped " + ast.unparse(a), ast.unparse(b)))
+            return True
+        return False
     if isinstance(a, ast.Call) and not a.keywords and not b.keywords and {len(a.args), len(b.args)} == {0, 1}:
         # `s.pop()` vs `s.pop(0)`: one literal argument more or less is a leaf, not another shape
         extra = (a.args or b.args)[0]
